@@ -114,8 +114,8 @@ def py_attr(ex, obj, attr, node):
   return None
 
 
-SELECTOR_PATTERN = r'^([a-zA-Z_]\w*\.)*[a-zA-Z_]\w*$'
-IDENTIFIER_PATTERN = r'^[a-zA-Z_]\w*$'
+SELECTOR_PATTERN = r'^([a-zA-Z_]\w*\.)*[a-zA-Z_]\w*\Z'
+IDENTIFIER_PATTERN = r'^[a-zA-Z_]\w*\Z'
 KNOWN_PATTERNS = {'SELECTOR_RE': SELECTOR_PATTERN, 'MODULE_RE': SELECTOR_PATTERN,
                   'IDENTIFIER_RE': IDENTIFIER_PATTERN}
 
@@ -234,6 +234,9 @@ def contains(ex, coll, x, node):
   m = _dunder(ex, coll, '__contains__')
   if m is not None:
     return ex.truth(ex.call(m, [x], {}, node), node)
+  if isinstance(coll, VObj):
+    # membership in an opaque collection: an uninterpreted relation
+    return sym.ufun('val_contains', sym.Val, sym.Val, sym.BoolS)(coll.e, sym.to_val(x))
   return None
 
 
